@@ -6,6 +6,7 @@ import core, gen
 from core import da, Axis, DimArray
 from .base import Prop
 from .c06 import gen_arrays, lab_key, cell_index
+from . import c04vals
 
 OPS = {"add": (operator.add, np.add), "sub": (operator.sub, np.subtract), "mul": (operator.mul, np.multiply),
        "truediv": (operator.truediv, np.true_divide), "floordiv": (operator.floordiv, np.floor_divide),
@@ -102,15 +103,28 @@ class C04(Prop):
     id = "C04"
     theorems = ["opTable_complete", "opTable_all_forms", "bcastShape_isSome", "zipBroadcast_get", "bcastIdx_get",
                 "getDims_first_prefix", "operation_attrs_dropped", "operation_same_dims_spec", "operation_same_dims_labels", "operation_same_dims_succeeds", "operation_succeeds", "operation_dims", "operation_dims_cover", "operation_general_spec", "operation_general_labels", "operation_unshared_labels",
-                "operation_disjoint_dims", "operation_broadcast_sub", "operation_comma_name_counterexample"]
+                "operation_disjoint_dims", "operation_broadcast_sub", "operation_comma_name_counterexample",
+                "add_nanAbsorbing", "sub_nanAbsorbing", "mul_nanAbsorbing", "truediv_nanAbsorbing", "floordiv_nanAbsorbing",
+                "pow_nan_right_iff", "pow_nan_left_iff", "pow_not_nanAbsorbing", "opX_nanAbsorbing_iff", "cmpX_nan",
+                "operation_cell_spec", "operation_missing_is_nan", "operation_missing_is_nan_op", "operation_pow_missing_not_nan"]
     rule = ("pairs of arrays of rank 0-3 over a pool of 1-3 dimension names with arbitrary overlap and order of "
             "dimensions; per-dimension label sets equal / overlapping / nested / disjoint, stored increasing / "
             "decreasing / shuffled, int/float/str and mixed int/float kinds; all six operators, both operand orders; "
             "scalar operands in both orders and ndarray right operands; a share of cases with values in {0,1,2,3} so "
             "that pow meets base 1 / exponent 0. The operator table (6 operators x {a op b, a op scalar, scalar op a, a "
             "op ndarray} on the probe operands 8 and 2) is tabulated from the implementation on every run. "
+            "Stratum opx (what the operator computes in a cell, Lib/OpVals.lean): float64 arrays with CONCRETE cells (small "
+            "integers, dyadic rationals, zeros, NaN, +inf, -inf sprinkled) for every operator of the table (+ - * / // **) x "
+            "{a op b with alignment, a op scalar, scalar op a (python float / np.float64 / 0-d array), a op ndarray incl. "
+            "ndarrays that do not broadcast / have more dimensions}, and the comparisons == != < <= > >= with a scalar, an "
+            "ndarray, a DimArray on equal axes and one on different axes (False / True / ValueError: comparisons do not "
+            "align); the driver evaluates operation / operationNd / compareNd on exact cells and every cell is compared "
+            "(NaN / inf positions and error classes exactly, rationals exactly when they are float64, else 1e-12); oracle: "
+            "NumPy's ufunc on the two label-matched cells, the missing operand being NaN, and the literal sentence 'NaN "
+            "elsewhere' (violated by ** at base 1 / exponent 0: K01). "
             "Non-trivial = two arrays sharing a dimension with different labels or different dims; distinct = canonical JSON")
-    assumptions = ["default options op.reindex=True, op.broadcast=True", "what the ufunc computes inside a cell is NumPy's (evaluated by NumPy)"]
+    assumptions = ["default options op.reindex=True, op.broadcast=True", "what the ufunc computes inside a cell is NumPy's (evaluated by NumPy) in the symbolic strata",
+                   "stratum opx: float64 data only; rounding is not modelled (a model value that is exactly a float64 must be returned exactly, any other within 1e-12 relative); the model has ONE zero (-0.0 read as 0, zero operands are +0.0); pow is modelled for exponents NaN / +-inf / integers (generated exponents are integers); & and | (TypeError on floats) are not modelled"]
 
     def mirrors(self):
         import sys as _s
@@ -118,7 +132,9 @@ class C04(Prop):
         al = _s.modules["dimarray.core.align"]
         from dimarray.core import bases, dimarraycls
         return {"operation": op.operation, "align_dims": al.align_dims, "align": al.align, "OpMixin": bases.OpMixin,
-                "_binary_op": dimarraycls.DimArray._binary_op, "_rbinary_op": dimarraycls.DimArray._rbinary_op}
+                "_binary_op": dimarraycls.DimArray._binary_op, "_rbinary_op": dimarraycls.DimArray._rbinary_op,
+                "__eq__": dimarraycls.DimArray.__eq__, "__ne__": dimarraycls.DimArray.__ne__, "_cmp": dimarraycls.DimArray._cmp,
+                "_to_array_equiv": dimarraycls.DimArray._to_array_equiv}
 
     # ---- the operator table, regenerated from the implementation on every run
     def pre_build(self):
@@ -177,6 +193,8 @@ class C04(Prop):
         n = 900 if tier == "quick" else 25000
         names = list(OPS)
         from .c06 import midshuffle_pairs
+        for c in c04vals.gen_cases(self, rng, tier):
+            yield c
         for k, arrays in enumerate(midshuffle_pairs()):
             yield {"op": "binop", "form": "arrays", "operator": names[k % len(names)] if names[k % len(names)] != "pow" else "sub",
                    "arrays": [gen.clean(a) for a in arrays], "small": False}
@@ -242,6 +260,8 @@ class C04(Prop):
         return a, nd
 
     def impl(self, c):
+        if c["op"] == "opx":
+            return c04vals.impl(c)
         toks = core.AttrTokens()
         a, b = self.operands(c)
         pyop = OPS[c["operator"]][0]
@@ -261,6 +281,8 @@ class C04(Prop):
         return out
 
     def request(self, c):
+        if c["op"] == "opx":
+            return c04vals.request(c)
         toks = core.AttrTokens()
         r = {"op": "binop", "arrays": [core.lean_array(gen.clean(a), toks) for a in c["arrays"]]}
         if c["form"] == "arrays":
@@ -272,6 +294,8 @@ class C04(Prop):
         return r
 
     def judge(self, c, io, ans):
+        if c["op"] == "opx":
+            return c04vals.judge(self, c, io, ans)
         lean = ans["lib"]
         ufunc = OPS[c["operator"]][1]
         a, b = self.operands(c)
@@ -321,6 +345,8 @@ class C04(Prop):
 
     def known(self, c, io, ans, mm, open_findings):
         ids = {f["id"] for f in open_findings}
+        if c["op"] == "opx":
+            return c04vals.known(c, io, ans, mm, ids)
         if "K01" in ids and c["operator"] == "pow" and c["form"] == "arrays" and mm["differs"] == ["values:nan_elsewhere"]:
             return "K01"
         if "K05" in ids and "err" in io and io["err"] == "index" and ans["lib"].get("err") == "index":
@@ -331,6 +357,8 @@ class C04(Prop):
         return None
 
     def nontrivial(self, c):
+        if c["op"] == "opx":
+            return c["form"] != "arrays" or c["arrays"][0]["axes"] != c["arrays"][1]["axes"]
         if c["form"] != "arrays":
             return True
         a, b = c["arrays"]
@@ -338,6 +366,8 @@ class C04(Prop):
             any(x["labels"] != y["labels"] for x in a["axes"] for y in b["axes"] if x["name"] == y["name"])
 
     def features(self, c, io):
+        if c["op"] == "opx":
+            return c04vals.features(c, io)
         return {"outcome": "err:" + io["err"] if "err" in io else "ok", "form": c["form"], "operator": c["operator"],
                 "small": c.get("small", False), "scalar_type": c.get("scalar_type") or ("python" if c["form"].startswith("scalar") else "-"), "ranks": "%d,%d" % (len(c["arrays"][0]["axes"]), len(c["arrays"][1]["axes"]) if len(c["arrays"]) > 1 else -1)}
 
